@@ -327,6 +327,8 @@ class SourceModel:
         self.positionalized = positionalize_calls(self)
         from .inline import absorb_helpers
         self.absorbed = absorb_helpers(self)
+        from .inline import absorb_value_helpers
+        self.absorbed += absorb_value_helpers(self)
         from .inline import desugar_optional_setters
         self.desugared = desugar_optional_setters(self)
         from .astutil import register_simple_helpers
